@@ -1,0 +1,50 @@
+//go:build verif
+
+package module
+
+// Contracts for the verification machinery in /verif (comment-only file;
+// excluded from every build without the "verif" tag).
+
+// ---- C15: a file path accepted by CheckFilePath is a safe relative path ----
+
+// bytes that never occur in an accepted file name element
+//@ spec func badByte(c int) bool { c == '/' || c == '\\' || c == ':' || c == '*' || c == '?' || c == '"' || c == '<' || c == '>' || c == '|' || c == '\'' || c == '`' || c < 0x20 || c == 0x7f || c == ';' }
+//@ spec func allDotsS(s string) bool { forall c in s :: c == '.' }
+// no ASCII byte of s is a bad byte (non-ASCII bytes belong to letters, see fileNameOK)
+//@ spec func cleanBytes(s string) bool { forall c in s :: c < 128 ==> !badByte(c) }
+
+//@ func fileNameOK
+//@   pure
+//@   ensures result && r < 128 ==> !badByte(r)
+//@   ensures r == '/' || r == '\\' || r == ':' || r == 0 ==> !result
+
+//@ func checkElem
+//@   requires kind == modulePath || kind == importPath || kind == filePath
+//@   loop 0 invariant 0 <= iter(0) && iter(0) <= len(elem) && (kind == filePath ==> cleanBytes(elem[:iter(0)]))
+//@   ensures result == nil ==> len(elem) > 0 && !allDotsS(elem) && elem[len(elem)-1] != '.'
+//@   ensures result == nil && kind == filePath ==> cleanBytes(elem)
+
+//@ func modPathOK
+//@   pure
+//@ func importPathOK
+//@   pure
+//@ func firstPathOK
+//@   pure
+
+// (P) C15: safe relative path — non-empty, not rooted, no trailing or double
+// slash, no backslash/colon/NUL or other shell-special ASCII byte, and no
+// element that is empty or consists of dots only (".", "..", "...").
+//@ spec func elemAt(p string, a int, b int) bool { 0 <= a && a <= b && b <= len(p) && (a == 0 || p[a-1] == '/') && (b == len(p) || p[b] == '/') && (forall k int :: a <= k && k < b ==> p[k] != '/') }
+//@ spec func opaque safeRel(p string) bool { len(p) > 0 && p[0] != '/' && p[len(p)-1] != '/' && (forall k int :: 0 <= k && k + 1 < len(p) ==> !(p[k] == '/' && p[k+1] == '/')) && (forall c in p :: c < 128 && c != '/' ==> !badByte(c)) && (forall a, b int :: elemAt(p, a, b) ==> a < b && !allDotsS(p[a:b])) }
+
+//@ func checkPath
+//@   reveal safeRel
+//@   requires kind == modulePath || kind == importPath || kind == filePath
+//@   loop 0 invariant 0 <= elemStart && elemStart <= iter(0) && iter(0) <= len(path) && (elemStart == 0 || path[elemStart-1] == '/')
+//@   loop 0 invariant forall k int :: elemStart <= k && k < iter(0) ==> path[k] != '/'
+//@   loop 0 invariant kind == filePath ==> forall c in path[:elemStart] :: c < 128 && c != '/' ==> !badByte(c)
+//@   loop 0 invariant forall a, b int :: elemAt(path, a, b) && b < elemStart ==> a < b && !allDotsS(path[a:b])
+//@   ensures result == nil && kind == filePath ==> safeRel(path)
+
+//@ func CheckFilePath
+//@   ensures result == nil ==> safeRel(path)
